@@ -135,6 +135,25 @@ def f9(x, y, z=3):
     return r_f9(x, y, z)
 
 
+class Cnt(int):
+    """an int whose comparisons are visible: wrapping the builtin `max` (which Python cannot introspect)
+    around two of these makes every evaluation of the builtin show up in the evaluation log"""
+    def __gt__(self, o):
+        _enter('b1', 'gt %d %d' % (int(self), int(o)))
+        return int.__gt__(self, o)
+
+    def __lt__(self, o):
+        _enter('b1', 'lt %d %d' % (int(self), int(o)))
+        return int.__lt__(self, o)
+
+    def __reduce__(self):
+        return (Cnt, (int(self),))
+
+
+def r_b1(*a):
+    return max(int(x) if isinstance(x, int) else x for x in a) if len(a) > 1 else max(*a)
+
+
 def f1(x):
     _enter('f1', show((x,)))
     return r_f1(x)
@@ -166,11 +185,12 @@ def f6(x, y=2, *a, **kw):
 
 
 FUNCS = {'f1': (f1, r_f1), 'f2': (f2, r_f2), 'f3': (f3, r_f3),
-         'f4': (f4, r_f4), 'f5': (f5, r_f5), 'f6': (f6, r_f6), 'f7': (f7, r_f7), 'f8': (f8, r_f8), 'f9': (f9, r_f9)}
+         'f4': (f4, r_f4), 'f5': (f5, r_f5), 'f6': (f6, r_f6), 'f7': (f7, r_f7), 'f8': (f8, r_f8), 'f9': (f9, r_f9),
+         'b1': (max, r_b1)}          # a builtin without introspectable signature, always called with two Cnt
 # signature twins: f7 is spelled like f2, f8 like f4 (they differ in the default value only)
 SHAPE = {'f7': 'f2', 'f8': 'f4'}
 DEFAULTS = {'f2': ('y', 2), 'f6': ('y', 2), 'f4': ('k', 1), 'f7': ('y', 7.26), 'f8': ('k', 7.26)}
-VARIADIC = ('f3', 'f6')
+VARIADIC = ('f3', 'f6', 'b1')
 
 
 def sibling_of(fn):
@@ -242,7 +262,7 @@ def gen_config(rng, prop, tier):
     if wide:
         maxsize = rng.choice([30, 40])      # LFU evicts max(2, maxsize//10) entries: >2 only from 30 up
     purge = rng.chance(0.3) and prop != 'C06'
-    fn = rng.weighted([(3, 'f1'), (4, 'f2'), (2, 'f3'), (2, 'f4'), (2, 'f5'), (2, 'f6'), (1, 'f7'), (1, 'f8'), (1, 'f9')])
+    fn = rng.weighted([(3, 'f1'), (4, 'f2'), (2, 'f3'), (2, 'f4'), (2, 'f5'), (2, 'f6'), (1, 'f7'), (1, 'f8'), (1, 'f9'), (1, 'b1')])
     if wide:
         fn = rng.choice(['f2', 'f6', 'f9', 'f2'])       # enough distinct bound-argument combinations
     # backend
@@ -255,6 +275,8 @@ def gen_config(rng, prop, tier):
     if prop in ('C07', 'C02'):
         labels = [l for l in labels if l not in (None, 'null')] + ['dict']
     label = rng.choice(labels)
+    if fn == 'b1' and label in ('file-src', 'dir-src'):
+        fn = 'f3'        # Cnt results have no importable source form: not lossless in source-text archives
     direct = label is not None and label != 'null' and rng.chance(0.15) and prop not in ('C07',)
     for _ in range(50):
         kind, arg = rng.choice(KEYMAPS)
@@ -311,6 +333,9 @@ KW_NAMES = ['p', 'q']
 
 def logical_call(rng, fn, pool, tuples_ok):
     """one logical call as bound values; spelled separately"""
+    if fn == 'b1':
+        ints = [p for p in pool if isinstance(p, int) and not isinstance(p, bool) and abs(p) < 2 ** 31] or [0, 1, 2]
+        return {'x': rng.choice(ints), 'a': [rng.choice(ints)]}
     x = rng.choice(pool)
     c = {'x': x}
     dflt = DEFAULTS.get(fn, (None, None))[1]
@@ -378,7 +403,7 @@ def spell(rng, fn, c):
                 kw.append(['z', c['z']])
             else:
                 kw.insert(0, ['z', c['z']])
-    elif fn == 'f3':
+    elif fn in ('f3', 'b1'):
         args.append(c['x'])
         args.extend(c.get('a', []))
     elif fn == 'f4':
@@ -463,7 +488,7 @@ def generate(rng, prop, tier):
     if cfg['backend'] is None:
         mix = [(w, k) for (w, k) in mix if k not in ('off', 'on', 'swap', 'load', 'load_k',
                                                       'dump', 'dump_k')] + [(2, 'load'), (2, 'dump')]
-    if cfg['module'] != 'safe':
+    if cfg['module'] != 'safe' or fn == 'b1':
         mix = [(w, k) for (w, k) in mix if k != 'bad']
     if cfg['backend'] is None or cfg['direct'] or not B.is_persistent(cfg['backend']):
         mix = [(w, k) for (w, k) in mix if k != 'peer_call']
@@ -499,7 +524,8 @@ def generate(rng, prop, tier):
                 recent.append(c)
             ops.append(op)
         elif kind == 'bad':
-            ops.append({'op': 'call', 'a': [rng.choice(BAD_ARGS)], 'kw': [], 'bad': True})
+            ops.append({'op': 'call', 'a': [rng.choice(BAD_ARGS)] + ([1] if fn == 'f9' else []), 'kw': [],
+                        'bad': True})
         elif kind in ('load_k', 'dump_k'):
             cs = [rng.choice(hot) for _ in range(rng.randint(1, 2))]
             ops.append({'op': kind, 'calls': [spell(rng, fn, c) for c in cs]})
@@ -557,8 +583,14 @@ class Mismatch(Exception):
         self.detail = detail
 
 
+_WRAP_CNT = [False]
+
+
 def _decode_call(op):
-    return [dec(v) for v in op['a']], dict((n, dec(v)) for n, v in op['kw'])
+    args, kw = [dec(v) for v in op['a']], dict((n, dec(v)) for n, v in op['kw'])
+    if _WRAP_CNT[0]:
+        args = [Cnt(a) if isinstance(a, int) and not isinstance(a, bool) else a for a in args]
+    return args, kw
 
 
 def snapshot(d):
@@ -582,6 +614,7 @@ class World(object):
         self.raise_next = None
         self.fn, self.rfn = FUNCS[self.cfg['fn']]
         _BIGRES[0] = bool(self.cfg.get('bigres'))
+        _WRAP_CNT[0] = self.cfg['fn'] == 'b1' 
         self.generation = 0
         self.swapped = 0
         self.f = None
